@@ -365,6 +365,12 @@ var rulePools = &core.Rule{ID: "R04.3", Min: 6,
 					}
 				}
 				if reset == nil {
+					// a pooled struct of library readers: every field is Reset (on its address, or on the pointer it
+					// holds) before anything else touches it
+					if okFields, firstReset := pooledStructReset(obj); okFields {
+						s.OK(key+": reset before use", c.Pos(firstReset.Pos()), "every field of the pooled struct is Reset before any other use")
+						continue
+					}
 					s.Bad(key+": reset before use", c.Pos(call.Pos()), "a value taken from the pool is used without being re-initialised: state left by an earlier detection (path stack, counters, flags, buffered bytes) leaks into this one")
 					continue
 				}
@@ -835,6 +841,113 @@ var ruleContracts = &core.Rule{ID: "R04.5", Min: 8, Slow: true,
 	}}
 
 // putsParam: g hands its parameter idx to (*sync.Pool).Put.
+// pooledStructReset: obj points to a struct every field of which is a library
+// reader (bytes.Reader, strings.Reader, bufio.Reader, by value or by pointer);
+// in obj's function each field is the receiver of a Reset call, and that call
+// comes before every other use of the field. Returns the first Reset.
+func pooledStructReset(obj ssa.Value) (bool, ssa.Instruction) {
+	pt, ok := obj.Type().Underlying().(*types.Pointer)
+	if !ok {
+		return false, nil
+	}
+	st, ok := pt.Elem().Underlying().(*types.Struct)
+	if !ok || st.NumFields() == 0 {
+		return false, nil
+	}
+	isReaderT := func(t types.Type) bool {
+		if p, ok := t.Underlying().(*types.Pointer); ok {
+			t = p.Elem()
+		}
+		n, ok := t.(*types.Named)
+		if !ok || n.Obj().Pkg() == nil {
+			return false
+		}
+		switch n.Obj().Pkg().Path() + "." + n.Obj().Name() {
+		case "bytes.Reader", "strings.Reader", "bufio.Reader":
+			return true
+		}
+		return false
+	}
+	for i := 0; i < st.NumFields(); i++ {
+		if !isReaderT(st.Field(i).Type()) {
+			return false, nil
+		}
+	}
+	resets := map[int]*ssa.Call{}
+	isResetOn := func(call *ssa.Call, recv ssa.Value) bool {
+		g := call.Call.StaticCallee()
+		return g != nil && g.Name() == "Reset" && g.Pkg != nil && (g.Pkg.Pkg.Path() == "bytes" || g.Pkg.Pkg.Path() == "strings" || g.Pkg.Pkg.Path() == "bufio") && len(call.Call.Args) > 0 && call.Call.Args[0] == recv
+	}
+	var others []ssa.Instruction
+	for _, ref := range *obj.Referrers() {
+		fa, ok := ref.(*ssa.FieldAddr)
+		if !ok {
+			if _, dbg := ref.(*ssa.DebugRef); dbg {
+				continue
+			}
+			switch ref.(type) {
+			case *ssa.Return, *ssa.MakeInterface, *ssa.Store:
+				continue // handed on: the caller's uses come after this function's resets
+			}
+			return false, nil
+		}
+		for _, r2 := range *fa.Referrers() {
+			switch x := r2.(type) {
+			case *ssa.Call:
+				if isResetOn(x, fa) {
+					if resets[fa.Field] == nil || core.Before(x, resets[fa.Field]) {
+						resets[fa.Field] = x
+					}
+					continue
+				}
+				others = append(others, x)
+			case *ssa.UnOp:
+				// the pointer held by the field
+				for _, r3 := range *x.Referrers() {
+					if c3, ok := r3.(*ssa.Call); ok && isResetOn(c3, x) {
+						if resets[fa.Field] == nil || core.Before(c3, resets[fa.Field]) {
+							resets[fa.Field] = c3
+						}
+						continue
+					}
+					if _, dbg := r3.(*ssa.DebugRef); dbg {
+						continue
+					}
+					if i3, ok := r3.(ssa.Instruction); ok {
+						others = append(others, i3)
+					}
+				}
+			case *ssa.MakeInterface:
+				// &r.src handed to a Reset as its new source: an argument, not a use of stale state
+			case *ssa.DebugRef:
+			default:
+				others = append(others, x)
+			}
+		}
+	}
+	var first ssa.Instruction
+	for i := 0; i < st.NumFields(); i++ {
+		if resets[i] == nil {
+			return false, nil
+		}
+		if first == nil || core.Before(resets[i], first) {
+			first = resets[i]
+		}
+	}
+	for _, o := range others {
+		covered := false
+		for _, r := range resets {
+			if core.Before(r, o) {
+				covered = true
+			}
+		}
+		if !covered {
+			return false, nil
+		}
+	}
+	return true, first
+}
+
 func putsParam(g *ssa.Function, idx int) bool {
 	for _, ci := range core.Calls(g) {
 		if !core.MethodCalleeIs(ci.Common(), "sync", "Pool", "Put") {
